@@ -247,8 +247,12 @@ def state_invariants(scfg, want=("C04", "C06")):
                         out.append(("C04", "exiting-not-inside", name, str(b.exiting)))
                     else:
                         x = sub.graph[b.exiting]
-                        expect = tuple(t for t in x._jump_targets
-                                       if t not in x.backedges and t not in sub.graph)
+                        # "outgoing targets" in the library's own vocabulary: the
+                        # jump_targets property = successors that are not declared back
+                        # edges.  (Until seeded change C04-10 targets inside the region's
+                        # own graph were excluded as well, which let an exiting block
+                        # that had lost its back-edge declaration pass.)
+                        expect = tuple(t for t in x._jump_targets if t not in x.backedges)
                         if tuple(b._jump_targets) != expect:
                             out.append(("C04", "region-targets-differ-from-exiting", name,
                                         "region=%s exiting(%s)=%s" % (list(b._jump_targets), b.exiting, list(expect))))
